@@ -663,7 +663,8 @@ int main(int argc, char** argv) {
 
     static const char* call_name[] = { "-", "malloc", "realloc(null)", "calloc", "allocator::allocate", "posix_memalign", "aligned_malloc", "aligned_realloc(null)", "msize", "allocator::deallocate",
                                        "aligned_realloc(p,0)", "aligned_free", "realloc(p,0)", "free", "aligned_realloc", "realloc", "allocation_command" };
-    watchdog_start(WatchdogCfg{}, [&](const HangInfo& hi) {
+    WatchdogCfg wcfg; wcfg.hard_limit_s = 400;      // phases pinned to 1-2 CPUs on a loaded machine: 16 threads meeting at barriers need a while
+    watchdog_start(wcfg, [&](const HangInfo& hi) {
         std::string inside; int n = 0;
         for (int t = 0; t < kWorkers; t++) if (int w = g_w[t].in_call.load()) { inside += " worker" + std::to_string(t) + ":" + call_name[w]; n++; }
         if (int w = g_child_in_call.load()) { inside += std::string(" short-lived:") + call_name[w]; n++; }
